@@ -178,7 +178,10 @@ Written(tx) == {tx.wl[i].n : i \in 1..Len(tx.wl)}
 RecVals(tx, n) == {tx.wl[i].v : i \in {i \in 1..Len(tx.wl) : tx.wl[i].n = n}}          \* the values the records of key n declare
 RecVal(tx, n) == CHOOSE v \in RecVals(tx, n) : TRUE
 LastVal(tx, n) == tx.wl[Max({i \in 1..Len(tx.wl) : tx.wl[i].n = n})].v                  \* the record a commit applies last
-(* the declared list and an executed write set (one record per key) are the same collection of records *)
+(* the declared list says the same as an executed write set: every record is produced, everything produced has a record *)
+SameWrites(l, w) == /\ \A i \in 1..Len(l) : w[l[i].n] = l[i].v
+                    /\ \A n \in {n \in Keys : w[n] # NoWrite} : \E i \in 1..Len(l) : l[i].n = n
+(* ... and is the same collection of records (one per key): what the comparison of the code demands *)
 SameRecords(l, w) == /\ Len(l) = Cardinality({n \in Keys : w[n] # NoWrite})
                      /\ \A n \in {n \in Keys : w[n] # NoWrite} : \E i \in 1..Len(l) : l[i] = [n |-> n, v |-> w[n]]
 SumAmt(s) == FoldLeft(LAMBDA x, o : x + o.amt, 0, s)
@@ -203,8 +206,9 @@ Params(kind, tx) ==
     [] kind = "write_dup"   -> {T(kind, n, "", j, "", <<>>) : n \in Written(tx), j \in Written(tx)} \ {T(kind, n, "", n, "", <<>>) : n \in Written(tx)}
     \* the records of keys n and j change places
     [] kind = "write_swap"  -> {T(kind, r[1], "", r[2], "", <<>>) : r \in {r \in Written(tx) \X Written(tx) : r[1] < r[2]}}
-    \* one more record for a key that has one: a copy of it, or another value
-    [] kind = "write_app"   -> {T(kind, n, v, 0, "", <<>>) : n \in Written(tx), v \in {"z"}} \cup {T(kind, n, RecVal(tx, n), 0, "", <<>>) : n \in Written(tx)}
+    \* one more record for a key that has one: with another value (write_app), or a copy of its record (write_rep)
+    [] kind = "write_app"   -> {T(kind, n, v, 0, "", <<>>) : n \in Written(tx), v \in {"z", DelMark}} \ {T(kind, n, RecVal(tx, n), 0, "", <<>>) : n \in Written(tx)}
+    [] kind = "write_rep"   -> {T(kind, n, RecVal(tx, n), 0, "", <<>>) : n \in Written(tx)}
     \* one more record for a declared read, with the same or another version, before the first or after the last record
     [] kind = "read_dup"    -> {T(kind, n, v, 0, d, <<>>) : n \in Declared(tx), v \in {"none", "s0", "s"}, d \in {"first", "last"}}
     [] kind = "arg"         -> ({T(kind, 0, "", j, "", [tx.prog EXCEPT ![j] = s]) : j \in 1..Len(tx.prog), s \in Steps}
@@ -237,7 +241,7 @@ Tampered(tx, t, k) ==
     [] t.tk = "read_add"    -> [tx EXCEPT !.rd[t.n] = k[t.n].ver]
     [] t.tk = "read_dup"    -> [tx EXCEPT !.rdx = Append(@, [n |-> t.n, ver |-> t.v])]
     [] t.tk = "write_drop"  -> [tx EXCEPT !.wl = SelectSeq(tx.wl, LAMBDA r : r.n # t.n)]
-    [] t.tk \in {"write_add", "write_app"} -> [tx EXCEPT !.wl = Append(@, [n |-> t.n, v |-> t.v])]
+    [] t.tk \in {"write_add", "write_app", "write_rep"} -> [tx EXCEPT !.wl = Append(@, [n |-> t.n, v |-> t.v])]
     [] t.tk = "write_val"   -> [tx EXCEPT !.wl = [i \in 1..Len(tx.wl) |-> IF tx.wl[i].n = t.n THEN [n |-> t.n, v |-> t.v] ELSE tx.wl[i]]]
     [] t.tk = "write_dup"   -> [tx EXCEPT !.wl = [i \in 1..Len(tx.wl) |-> IF tx.wl[i].n = t.n THEN [n |-> t.j, v |-> RecVal(tx, t.j)] ELSE tx.wl[i]]]
     [] t.tk = "write_swap"  -> [tx EXCEPT !.wl = [i \in 1..Len(tx.wl) |-> IF tx.wl[i].n = t.n THEN [n |-> t.j, v |-> RecVal(tx, t.j)]
@@ -286,11 +290,12 @@ ApplyBal(tx, b) == [a |-> b.a - IniFunds + Change(tx) + SumTo(tx.rout, "a"), c |
 Refused(k, b) == [res |-> "reject", kv |-> k, bal |-> b]
 Outcome(f, tx, k, b) == IF VerifyF(f, tx, k) /\ CommitOK(tx, k) THEN [res |-> "admit", kv |-> ApplyKV(tx, k), bal |-> ApplyBal(tx, b)]
                         ELSE Refused(k, b)
-(* Tamperings that change nothing the property speaks about - the same records in another order, a declared read repeated with   *)
-(* the same (current) version: the property leaves the verdict open (R6), so a node may refuse them as long as it refuses        *)
-(* cleanly; if it admits, the commit is judged like any other.                                                                    *)
-FormOnly(t, k) == t.tk = "write_swap" \/ (t.tk = "read_dup" /\ t.v = k[t.n].ver)
-Outcomes(f, tx, t, k, b) == {Outcome(f, tx, k, b)} \cup (IF FormOnly(t, k) THEN {Refused(k, b)} ELSE {})
+(* Tamperings of the FORM only - the same records in another order, a write record repeated, a declared read repeated with the  *)
+(* same (current) version: the transaction declares the same reads and the same key -> value writes as the untampered one (htx), *)
+(* so the property leaves the verdict open (R6).  A node may refuse them (cleanly); if it admits one, the commit is that of the   *)
+(* untampered transaction, and it is judged like any other.                                                                      *)
+FormOnly(t, k) == t.tk \in {"write_swap", "write_rep"} \/ (t.tk = "read_dup" /\ t.v = k[t.n].ver)
+Outcomes(f, tx, htx, t, k, b) == IF FormOnly(t, k) THEN {Outcome(f, htx, k, b), Refused(k, b)} ELSE {Outcome(f, tx, k, b)}
 
 (* ------------------------------------------------------------------ state ---------- *)
 NoSub == [tx |-> Honest(NoResp("none"), <<>>, 0), t |-> NoT, res |-> "", kv0 |-> [k \in Keys |-> Never], bal0 |-> [a |-> 0, c |-> 0, v |-> 0, x |-> 0]]
@@ -342,13 +347,13 @@ PickKind(k) == /\ phase = "pre" /\ Answered /\ k \in TamperKinds /\ (il = 0 \/ k
 DoSubmit(t, want) ==
   /\ phase \in {"pre", "kind"} /\ Answered
   /\ \E tx \in {Tampered(Honest(resp, prog, amt), t, kv)} :
-     \E o \in LET S == Outcomes(Flags, tx, t, kv, bal) IN IF \E x \in S : x.res = want THEN {x \in S : x.res = want} ELSE S :
+     \E o \in LET S == Outcomes(Flags, tx, Honest(resp, prog, amt), t, kv, bal) IN IF \E x \in S : x.res = want THEN {x \in S : x.res = want} ELSE S :
      /\ kv' = o.kv /\ bal' = o.bal
      /\ sub' = [tx |-> tx, t |-> t, res |-> o.res, kv0 |-> kv, bal0 |-> bal]
      /\ Log([op |-> "submit", tk |-> t.tk, n |-> t.n, v |-> t.v, j |-> t.j, d |-> t.d, prog |-> ExtProg(t.prog), res |-> o.res,
              \* which of the two calls refuses (informative: the property speaks about the outcome of both together)
              stage |-> IF o.res = "admit" THEN "" ELSE IF VerifyF(Flags, tx, kv) THEN "dotx" ELSE "verify",
-             dv |-> {KFName(d) : d \in {d \in {"unbound", "st500", "nested"} : Flags[d] /\ o \notin Outcomes([Flags EXCEPT ![d] = FALSE], tx, t, kv, bal)}}])
+             dv |-> {KFName(d) : d \in {d \in {"unbound", "st500", "nested"} : Flags[d] /\ o \notin Outcomes([Flags EXCEPT ![d] = FALSE], tx, Honest(resp, prog, amt), t, kv, bal)}}])
   /\ phase' = "done"
   /\ UNCHANGED <<prog, amt, resp, il, tkind>>
 Submit == phase = "kind" /\ \E t \in Params(tkind, Honest(resp, prog, amt)) : DoSubmit(t, "")
@@ -415,7 +420,7 @@ AdmittedSound ==
      /\ Fresh(sub.tx, sub.kv0)
      /\ LET r == RunF(Ideal, Env("rs", sub.kv0, Declared(sub.tx), sub.tx.dcin, Inf, Inf), sub.tx.prog) IN
         /\ r.st = "ok"
-        /\ SameRecords(sub.tx.wl, r.out) /\ r.ev = sub.tx.ev
+        /\ SameWrites(sub.tx.wl, r.out) /\ r.ev = sub.tx.ev
         /\ r.un = sub.tx.rin /\ BagIncl(r.uout, sub.tx.rout)
         /\ (IF sub.tx.fee > 0 THEN sub.tx.fee ELSE 0) >= Gas(r.uc, r.ux)
      /\ sub.tx.amt = 0 \/ sub.tx.toC = sub.tx.amt
